@@ -277,6 +277,19 @@ func c15R4(p *engine.Prog, r *engine.Report) {
 			}
 		}
 		r.Check(ok, "C15-R4", "getGasLimit|(MaxFee - txFee) / gas cost", p.Pos(gl.Pos()), "result derives from MaxFeeOrZero and getTxFee", "gas limit is not what the max fee buys after the size fee")
+		// the budget is never rounded up: one gas unit more than was paid for is charged above MaxFee
+		roundsUp := map[string]bool{"DivRound": true, "Round": true, "RoundUp": true, "RoundCeil": true, "RoundBank": true, "RoundCash": true, "RoundHalfUp": true, "Ceil": true}
+		bad := ""
+		for _, ret := range engine.Returns(gl) {
+			for v := range engine.BackSlice(ret.Results[0], engine.DefaultSlice) {
+				if c, isCall := v.(*ssa.Call); isCall {
+					if obj := engine.CalleeObj(c.Common()); obj != nil && roundsUp[obj.Name()] {
+						bad = obj.FullName() + " at " + p.InstrPos(c)
+					}
+				}
+			}
+		}
+		r.Check(bad == "", "C15-R4", "getGasLimit|the quotient is never rounded up", p.Pos(gl.Pos()), "no rounding-up call on the way to the result", "the gas budget goes through "+bad+": when the remainder is at least half a gas price the VM gets one unit more than MaxFee buys and the sender is charged above the declared maximum")
 	}
 	// clamp
 	for _, x := range []struct{ pkg, fn, limName string }{{"vm", "VmImpl.Run", "gasLimit"}, {"vm/wasm", "WasmVM.Run", "wasmGasLimit"}} {
